@@ -124,10 +124,24 @@ func cmdConformance() int {
 		fmt.Fprintln(os.Stderr, "verif: running the transport scripts:", errT, errF)
 		return 3
 	}
+	// Steps whose result class depends on timing in grpc-go itself: a RecvMsg pending when the connection is
+	// closed returns Canceled ("the client connection is closing") or Unavailable ("transport is closing"),
+	// whichever goroutine notices first. The model always answers Unavailable; gorums treats every RecvMsg
+	// error alike.
+	eitherClass := map[string]map[string]bool{"close-conn": {"recv=Canceled": true, "recv=Unavailable": true}}
+	norm := func(script string, steps []string) []string {
+		out := append([]string{}, steps...)
+		for i, st := range out {
+			if eitherClass[script][st] {
+				out[i] = "recv=Canceled|Unavailable"
+			}
+		}
+		return out
+	}
 	steps2 := 0
 	for n, rt := range treal {
 		steps2 += len(rt)
-		if !reflect.DeepEqual(rt, tfake[n]) {
+		if !reflect.DeepEqual(norm(n, rt), norm(n, tfake[n])) {
 			bad++
 			fmt.Printf("CONFORMANCE transport %s: real grpc-go %v, fakegrpc %v\n", n, rt, tfake[n])
 		}
